@@ -357,6 +357,79 @@ class Facts:
                         self.closures[n["def"]] = n
         self.adts = {a["path"]: a for a in self.items["adts"]}
         self.impls = self.items["impls"]
+        # the arithmetic kernels are analysed by several syntactic rules (scratch discipline, operator profiles, magnitude domains):
+        # private helper functions of that module are expanded in place so that extracting / inlining a helper changes nothing
+        self.expand_private_helpers("decoder::arithmetic::", keep=r".*::(lookup|clip|phi|new|default|fmt|clone|eq|hash)$")
+
+    def expand_private_helpers(self, prefix, keep, max_depth=3):
+        import copy
+        counter = [0]
+
+        def helper_of(n):
+            if n.get("k") not in ("call", "mcall"):
+                return None
+            cp = callee(n)
+            hb = self.private_helper(cp, prefix, keep=keep) if cp else None
+            if hb is None or any(x.get("k") == "ret" for x in walk(hb.value)):
+                return None
+            args = ([n["recv"]] if n.get("k") == "mcall" else []) + list(n.get("args", []))
+            if len(args) != len(hb.params) or not all(p.get("k") == "bind" and "sub" not in p for p in hb.params):
+                return None
+            return hb, args
+
+        def rename(node, suffix, subst):
+            if isinstance(node, list):
+                return [rename(x, suffix, subst) for x in node]
+            if not isinstance(node, dict):
+                return node
+            if node.get("k") == "path" and node.get("res") == "local":
+                if node.get("name") in subst:
+                    rep = copy.deepcopy(subst[node["name"]])
+                    return rep
+                out = dict(node)
+                out["name"] = node["name"] + suffix
+                return out
+            out = {}
+            for k, v in node.items():
+                if k == "name" and node.get("k") == "bind":
+                    out[k] = v + suffix
+                elif isinstance(v, (dict, list)):
+                    out[k] = rename(v, suffix, subst)
+                else:
+                    out[k] = v
+            return out
+
+        def expand(node, depth):
+            if isinstance(node, list):
+                return [expand(x, depth) for x in node]
+            if not isinstance(node, dict):
+                return node
+            for k in list(node.keys()):
+                v = node[k]
+                if isinstance(v, (dict, list)):
+                    node[k] = expand(v, depth)
+            h = helper_of(node) if depth < max_depth else None
+            if h is None:
+                return node
+            hb, args = h
+            counter[0] += 1
+            suffix = "@h%d" % counter[0]
+            subst = {p["name"]: a for p, a in zip(hb.params, args)}
+            body = rename(copy.deepcopy(hb.value), suffix, subst)
+            body = expand(body, depth + 1)
+            if isinstance(body, dict):
+                body["expanded_from"] = hb.path
+            return body
+        for path, b in list(self.bodies.items()):
+            if path.startswith(prefix) or ("<" + prefix) in path[:len(prefix) + 2]:
+                if b.hir and self.private_helper(path, prefix, keep=keep) is None:
+                    b.hir["value"] = expand(b.hir["value"], 0)
+        # closures index must follow the rewritten trees
+        for b in list(self.bodies.values()):
+            if b.hir:
+                for n in walk(b.hir["value"]):
+                    if n.get("k") == "closure":
+                        self.closures[n["def"]] = n
 
     def private_helper(self, path, prefix="", keep=None):
         """body of `path` when it is a private (non-pub), non-const function under `prefix` that rules may expand at its call sites
